@@ -158,8 +158,14 @@ template<typename Fn> void api(int opc, Fn &&fn)
   }
 }
 
+// lenient operations (code + 1000): a precondition that does not hold (socket missing / closed / of the wrong class, no
+// driver) skips the operation instead of ending the case — fault-injection scenarios go on after a constructor threw
+struct SkipOp { int why; };
+static bool g_lenient = false;
+
 [[noreturn]] void bad_case(int why)
 {
+  if(g_lenient && ((why >= 102 && why <= 106) || why == 120 || why == 121 || why == 130)) throw SkipOp{why};
   S.active = false;
   vos::log(99, {1, why, static_cast<long long>(S.script.size())});
   fwrite(S.trace.data(), 1, S.trace.size(), stdout);
@@ -309,7 +315,29 @@ void make_async(long long k, Sock &s, long long h1, long long h2)
   }
 }
 
+void run_simple_op0(Op const &op);
+
 void run_simple_op(Op const &op)
+{
+  bool const saved = g_lenient;
+  if(op.code < 1000) {
+    g_lenient = false;
+    run_simple_op0(op);
+    g_lenient = saved;
+    return;
+  }
+  Op inner = op;
+  inner.code -= 1000;
+  g_lenient = true;
+  try {
+    run_simple_op0(inner);
+  } catch(SkipOp const &sk) {
+    vos::log(20, {inner.code, 2, sk.why});
+  }
+  g_lenient = saved;
+}
+
+void run_simple_op0(Op const &op)
 {
   int const opc = op.code;
   long long a0 = op.arg(0), a1 = op.arg(1), a2 = op.arg(2), a3 = op.arg(3), a4 = op.arg(4);
@@ -655,8 +683,13 @@ void report_state()
   }
 }
 
-void run_op(Op const &op)
+void run_op(Op const &op0)
 {
+  Op op = op0;
+  bool const lenient = op.code >= 1000;
+  if(lenient) op.code -= 1000;
+  g_lenient = lenient;
+  try {
   switch(op.code) {
   case 40: // DRIVER_NEW
     api(40, [&]() -> V {
@@ -669,18 +702,24 @@ void run_op(Op const &op)
     break;
   case 41: // STEP timeout
     if(!driver) bad_case(130);
+    g_lenient = false;
     api(41, [&]() -> V { driver->Step(Duration(op.arg(0))); return {}; });
     break;
   case 42: // RUN
     if(!driver) bad_case(130);
+    g_lenient = false;
     api(42, [&]() -> V { driver->Run(); return {}; });
     break;
   case 44: // DRIVER_DESTROY
     api(44, [&]() -> V { driver.reset(); return {}; });
     break;
   default:
-    run_simple_op(op);
+    run_simple_op(op0);
   }
+  } catch(SkipOp const &sk) {
+    vos::log(20, {op.code, 2, sk.why});
+  }
+  g_lenient = false;
   report_state();
 }
 
